@@ -243,6 +243,17 @@ class Check:
         """Writes evidence, prints VIOLATION / KNOWN-FINDING lines, returns exit code.
         `search` is called (once) when something is broken and no violation was found yet; it may call
         self.violation()."""
+        try:
+            from harness import par as _par
+            n_err, n_tot = len(_par.HARNESS_ERRORS), _par.TOTAL[0]
+        except Exception:
+            n_err, n_tot = 0, 0
+        if n_err >= 10 and n_err * 20 >= n_tot:
+            # the harness cannot run or observe the implementation any more (e.g. an internal it reads was renamed): whatever the
+            # theorems say, they are no longer tied to this code
+            self.broken.append({'kind': 'correspondence', 'what': 'the harness could not run or observe the implementation in %d of %d simulated runs' % (n_err, n_tot),
+                                'detail': _par.HARNESS_ERRORS[0]})
+        self.notes['harness_errors_total'] = n_err
         if self.broken and not self.violations and search is not None:
             search()
         wall = time.time() - self.t0
